@@ -270,6 +270,18 @@ def build_pool(uni, tier="quick"):
     return pool
 
 
+CAP = 8
+
+
+def capped(led, oid, fields):
+    """True while fewer than CAP failures with this obligation and these fields were recorded by this worker: further identical
+    failures add nothing to the verdict and are not recorded at all (neither as failures nor as evaluations)"""
+    d = led.__dict__.setdefault("_c15_cap", {})
+    k = (oid, tuple(sorted((str(a), str(b)) for a, b in fields.items())))
+    d[k] = d.get(k, 0) + 1
+    return d[k] <= CAP
+
+
 # ------------------------------------------------------------------------------------------ simplify contract
 def check_simplify(led, uni, v, atol, key, nontriv_hint=True, agg=None):
     """contract of OpSum.simplify(atol) on the value v (an OpSum); returns the result or None.
@@ -285,8 +297,9 @@ def check_simplify(led, uni, v, atol, key, nontriv_hint=True, agg=None):
         res = inp.simplify() if atol is None else inp.simplify(atol=atol)
     except Exception as e:
         fields = {"qn_size": uni.qn_size, "identity_mixed": bool(mixed), "error": type(e).__name__, "via": "OpSum.simplify"}
-        led.check(False, "post:Op.squeeze_identity:total", "Op.squeeze_identity",
-                  f"{src} raised {type(e).__name__}: {e}", key + ("total",), fields, rep)
+        if capped(led, "post:Op.squeeze_identity:total", fields):
+            led.check(False, "post:Op.squeeze_identity:total", "Op.squeeze_identity",
+                      f"{src} raised {type(e).__name__}: {e}", key + ("total",), fields, rep)
         return None
     fields = {"atol": atol, "qn_size": uni.qn_size}
     fn = "OpSum.simplify"
@@ -623,8 +636,9 @@ def w_squeeze(case, led):
                 try:
                     r = op.squeeze_identity()
                 except Exception as e:
-                    led.check(False, f"post:{fn}:total", fn, f"`{src}` raised {type(e).__name__}: {e}", key,
-                              {"qn_size": uni.qn_size, "identity_mixed": bool(mixed), "error": type(e).__name__, "via": "direct"}, rep)
+                    fields = {"qn_size": uni.qn_size, "identity_mixed": bool(mixed), "error": type(e).__name__, "via": "direct"}
+                    if capped(led, f"post:{fn}:total", fields):
+                        led.check(False, f"post:{fn}:total", fn, f"`{src}` raised {type(e).__name__}: {e}", key, fields, rep)
                     continue
                 fields = {"qn_size": uni.qn_size, "identity_mixed": bool(mixed)}
                 nt = any(x == "I" for x, _ in word)
@@ -788,7 +802,13 @@ def w_strings(case, led):
             key = ("strings-mul", w1, w2)
             rep = {"left": a.symbol, "right": b.symbol, "how": "Op(left, dofs) * Op(right, dofs')"}
             want = [A.norm_letter(x) for x in w1 + w2]
-            for fn, r in (("Op.__mul__", a * b2), ("Op.product", Op.product([a, b2]))):
+            for fn, f in (("Op.__mul__", lambda: a * b2), ("Op.product", lambda: Op.product([a, b2]))):
+                try:
+                    r = f()
+                except Exception as e:
+                    led.check(False, f"post:{fn}:total", fn, f"({a.symbol!r}) * ({b.symbol!r}) raised {type(e).__name__}: {e}", key + (fn,),
+                              {"error": type(e).__name__}, rep)
+                    continue
                 led.check(list(r.split_symbol) == want and r.dofs == a.dofs + b2.dofs and len(r.qn_list) == len(want), f"post:{fn}:word_concatenation", fn,
                           f"({a.symbol!r}) * ({b.symbol!r}) has simple symbols {r.split_symbol} on {r.dofs}, expected {want}", key + (fn,), {}, rep,
                           A.PLUS in w1 + w2)
@@ -806,15 +826,41 @@ def w_strings(case, led):
             ok, what = False, f"`{src}` (a product of simple symbols on different DoFs) raised {type(e).__name__}: {e}"
         led.check(ok, "post:Op.product:reserved_phrase_boundary", "Op.product", what, ("strings-boundary", w1, w2),
                   {"boundary": "join spells b^\\dagger + b"}, {"expr": src, "how": "from renormalizer.model import Op; evaluate expr"})
+    for w in ((r"b^\dagger", "I", "+", "b"), (r"b^\dagger", "+", "I", "b")):      # the same boundary reached by removing an identity letter
+        op = Op(" ".join(w), list(range(len(w))))
+        want, wantd = [x for x in w if x != "I"], [d for x, d in zip(w, op.dofs) if x != "I"]
+        src = f"Op({op.symbol!r}, {op.dofs}).squeeze_identity()"
+        try:
+            r = op.squeeze_identity()
+            ok, what = list(r.split_symbol) == want and r.dofs == wantd, f"`{src}` has simple symbols {r.split_symbol} on {r.dofs}, expected {want} on {wantd}"
+        except Exception as e:
+            ok, what = False, f"`{src}` raised {type(e).__name__}: {e}"
+        led.check(ok, "post:Op.squeeze_identity:reserved_phrase_boundary", "Op.squeeze_identity", what, ("strings-boundary-squeeze", w),
+                  {"boundary": "join spells b^\\dagger + b"}, {"expr": src, "how": "from renormalizer.model import Op; evaluate expr"})
     # squeeze_identity re-joins the normalised spelling; the result must still split into the same letters
     for w, op in ops.items():
         if "I" not in w:
             continue
         key = ("strings-squeeze", w)
         rep = {"symbol": op.symbol, "how": "Op(symbol, list(range(n))).squeeze_identity().split_symbol"}
-        r = op.squeeze_identity()
         want = [A.norm_letter(x) for x in w if x != "I"] or ["I"]
         wantd = [d for x, d in zip(w, op.dofs) if x != "I"] or [0]
+        boundary = reserved(tuple(x for x in w if x != "I"))     # removing the identity letters spells the reserved phrase
+        try:
+            r = op.squeeze_identity()
+        except Exception as e:
+            if boundary:
+                led.check(False, "post:Op.squeeze_identity:reserved_phrase_boundary", "Op.squeeze_identity",
+                          f"Op({op.symbol!r}, {op.dofs}).squeeze_identity() raised {type(e).__name__}: {e}", key, {"boundary": "join spells b^\\dagger + b"}, rep)
+            else:
+                led.check(False, "post:Op.squeeze_identity:total", "Op.squeeze_identity",
+                          f"Op({op.symbol!r}, {op.dofs}).squeeze_identity() raised {type(e).__name__}: {e}", key,
+                          {"qn_size": 1, "identity_mixed": True, "error": type(e).__name__, "via": "strings"}, rep)
+            continue
+        if boundary:
+            led.check(list(r.split_symbol) == want and r.dofs == wantd, "post:Op.squeeze_identity:reserved_phrase_boundary", "Op.squeeze_identity",
+                      f"squeeze_identity of {op.symbol!r}: {r.split_symbol} on {r.dofs}, expected {want} on {wantd}", key, {"boundary": "join spells b^\\dagger + b"}, rep)
+            continue
         led.check(list(r.split_symbol) == want and r.dofs == wantd and [A.norm_letter(t) for t in A.tokenize(r.symbol)] == want,
                   "post:Op.squeeze_identity:symbol_round_trip", "Op.squeeze_identity",
                   f"squeeze_identity of {op.symbol!r}: symbol {r.symbol!r} splits into {r.split_symbol} on {r.dofs}, expected {want} on {wantd}", key, {}, rep,
